@@ -38,7 +38,7 @@ if [ $clean_rc -eq 0 ] && [ $build_rc -eq 0 ] && [ $patched_rc -ne 0 ] && { [ "$
   python3 - <<P
 import json
 m=json.load(open('$sd/meta.json'))
-m['confirmed_by_main']={'base_commit':'2e0a4f0','demo_on_clean_tree_rc':$clean_rc,'demo_with_patch_rc':$patched_rc,'build_with_patch_rc':$build_rc,'full_suite_with_patch':'$suite','ran':'tools/confirm_seed.sh $id $k (clean demo, apply, build -tags llvm14 + runtime, demo, full suite vs baseline log, revert) in scratch worktree /tmp/seed/$id'}
+m['confirmed_by_main']={'base_commit':'61d4653','demo_on_clean_tree_rc':$clean_rc,'demo_with_patch_rc':$patched_rc,'build_with_patch_rc':$build_rc,'full_suite_with_patch':'$suite','ran':'tools/confirm_seed.sh $id $k (clean demo, apply, build -tags llvm14 + runtime, demo, full suite vs baseline log, revert) in scratch worktree /tmp/seed/$id'}
 json.dump(m,open('$out/meta.json','w'),indent=1)
 P
   echo "  stored in $out"
